@@ -274,7 +274,18 @@ func VH_C10_NestedKinds() {
 	for k := 0; k < nops; k++ {
 		// as if a commit had just happened: everything stored so far is clean
 		snap := vhSnapshotAll(logst)
-		switch vhChoose("op", 6) {
+		switch vhChoose("op", 7) {
+		case 6: // bulk pop through the child handle: the child is empty afterwards (the grandchild goes with it)
+			if h.isMap {
+				vhAssert(h.m.PopIterate(func(ks, vs Storable) { vhDispose(storage, ks); vhDispose(storage, vs) }) == nil, "child bulk pop")
+			} else {
+				vhAssert(h.arr.PopIterate(func(s Storable) { vhDispose(storage, s) }) == nil, "child bulk pop")
+			}
+			h.count = 0
+			for c := 1; c <= h.n; c++ {
+				removedKeys[c] = true
+			}
+			grand, grandKey, grandIdx = nil, 0, -1
 		case 4: // type change through the child handle (inlined or standalone by solver choice)
 			childType = uint64(50 + k)
 			vhAssert(h.setType(childType) == nil, "child type change")
